@@ -169,6 +169,7 @@ def run(prog, tier, extra=None):
     R6 = res.rule("C03.marker-by-hash", "a ring slot's longest-chain marker is set to the position of the block's hash (or cleared); ring positions are not computed with wrapping arithmetic", floor=2)
     R8 = res.rule("C03.chain-segments", "the two chain segments handed to wind/unwind are collected by following parent links from a tip (or the longest-chain index), never a by-height lookup that ignores which block is on the chain", floor=2)
     R9 = res.rule("C03.ring-positions", "positions in the block ring are computed from the ring size (2 x genesis_period), never from genesis_period itself", floor=10)
+    R10 = res.rule("C03.purge-on-chain-only", "the purge erases outputs (Block::delete, Wallet::delete_block) only for a block flagged in_longest_chain", floor=1)
     R3 = res.rule("C03.index-owner", "only the table's bodies write the longest-chain index / in_longest_chain", floor=8)
 
     wind = prog.body(BC + "wind_chain::{closure#0}")
@@ -569,6 +570,30 @@ def run(prog, tier, extra=None):
             if bad9 is not None:
                 res.add(Finding(R9, "C03.ring-positions|%s" % p9.replace("::{closure#0}", ""), "%s indexes the ring with a position computed from genesis_period (`%s`), but the ring has "
                                 "2 * genesis_period slots: the slot before slot 0 is ring size - 1" % (p9.replace(CORE, ""), _sh9(bad9)[:60]), b9.loc(bb)))
+    # R10: side blocks are stored without validation and were never wound: the slips they name are not theirs. When the purge reaches
+    # their height, erasing "their" inputs and outputs deletes live entries of the ledger (any peer can store such a block as a
+    # sibling of an old block and name a victim's output as input). The erasing calls of Blockchain::delete_block must sit behind the
+    # true edge of a test of block.in_longest_chain.
+    from ..expr import Chaser as _Ch10, has_field as _hf10
+    from .. import gate as _g10
+    from ..paths import Explorer as _Ex10
+    db = prog.body(BC + "delete_block::{closure#0}")
+    if db is None:
+        raise LookupError("Blockchain::delete_block not found")
+    ch10 = _Ch10(db)
+    erase = {bb for bb, t in db.calls() if ((t.get("res") or t.get("callee") or "").replace("::{closure#0}", "")).endswith(("consensus::block::Block::delete", "consensus::wallet::Wallet::delete_block"))}
+    res.instance(R10)
+    flag10 = _g10.bool_switch_edges(db, ch10, lambda e: _hf10(e, "block::Block", "in_longest_chain"))
+    if not erase:
+        res.add(Finding(R10, "C03.purge-on-chain-only|anchors", "Blockchain::delete_block no longer calls Block::delete / Wallet::delete_block (anchor moved?)", db.loc(0)))
+    else:
+        f10 = _Ex10(db).explore(0, deleted_edges=set(flag10["true"]), accept=lambda bb, env: "erase" if bb in erase else None)
+        if f10:
+            res.add(Finding(R10, "C03.purge-on-chain-only|unconditional", "Blockchain::delete_block erases the slips of every block stored at the purged height, on the longest chain or not: a side "
+                            "block (stored without validation, never wound) takes the live outputs it names as inputs out of the UTXO set and the wallet when its height is purged",
+                            db.loc(sorted(f10.values())[0][-1])))
+        else:
+            res.sample({"rule": R10, "erasing_calls": [db.loc(x) for x in sorted(erase)], "verdict": "only behind in_longest_chain == true"})
     res.explanation = (
         "Decides the lockstep and ownership structure without which the four views (UTXO set, by-height index, per-block flag, wallet) cannot describe the same chain: "
         "exactly-once, same-direction updates of all four in wind_chain (after an accepting validate) and unwind_chain, who may mutate a UtxoSet, who may call the "
